@@ -165,7 +165,8 @@ fn maxdiff(a: &Img, b: &Img) -> String {
         let mut m = 0f32;
         for (p, q) in a.iter().zip(b.iter()) {
             for k in 0..3 {
-                let d = (p[k] - q[k]).abs();
+                // bit-identical samples do not differ, whatever they are (NaN out of a curve fed with a negative sample)
+                let d = if p[k].to_bits() == q[k].to_bits() { 0.0 } else { (p[k] - q[k]).abs() };
                 if d > m || d.is_nan() {
                     m = d;
                 }
@@ -218,8 +219,15 @@ fn paint(i: &mut Img, rng: &mut Rng) -> Result<(), String> {
         Img::Hsl(v) => v.data_mut(),
         _ => return Err("bad-call:MutatePayload".to_string()),
     };
+    // one paint in three also writes samples outside the unit cube ([-1, 2]^3, half of the pixels): state cached at
+    // construction about the RANGE of the samples ("all non-negative", "in gamut") must not outlive data_mut() either
+    let wide = rng.below(3) == 2;
     for p in d.iter_mut() {
-        *p = [rng.unit() as f32, rng.unit() as f32, rng.unit() as f32];
+        *p = if wide && rng.below(2) == 0 {
+            [(rng.unit() * 3.0 - 1.0) as f32, (rng.unit() * 3.0 - 1.0) as f32, (rng.unit() * 3.0 - 1.0) as f32]
+        } else {
+            [rng.unit() as f32, rng.unit() as f32, rng.unit() as f32]
+        };
     }
     Ok(())
 }
